@@ -7,5 +7,5 @@ func init() {
 			"The model's deadlines: every write picks the create hook for an absent/expired key and the update hook with the live old entry otherwise, and stores clock sample + that duration (C12.hook, C12.sat). "+
 			"NOT decided: conformance of whole sequences when eviction interleaves, BulkGet/InvalidateAll beyond one loop iteration, iteration order.",
 		[]string{"composition: operations that map related states to related states and return the model's result compose over finite sequences, given that eviction/expiration only remove entries and report them (C06)", "hashmap.Map.Compute runs its callback exactly once under the bucket lock (C15)"},
-		ruleC01Step, ruleC03Deadline, ruleC01Mgr, ruleC01Deleg, ruleC01Cap, ruleC10TableC10, ruleC10Inv, ruleC10Distribute, ruleC10Finisher, ruleLoadLemma, ruleC03Source, ruleLoadOps, ruleBulkOps, ruleC03Filter, ruleC15CopyAll, ruleC15Once, ruleC12Hooks, ruleC01Config, ruleC06HandlerNil)
+		ruleC01Step, ruleC03Deadline, ruleC01Mgr, ruleC01Deleg, ruleC01Cap, ruleC10TableC10, ruleC10Inv, ruleC10Distribute, ruleC10Finisher, ruleLoadLemma, ruleC03Source, ruleLoadOps, ruleBulkOps, ruleC03Filter, ruleC15CopyAll, ruleC15Once, ruleC12Hooks, ruleC01Config, ruleC06HandlerNil, ruleC18Hash)
 }
